@@ -116,6 +116,26 @@ impl WasmEngine {
             .map(|s| s.global_state.data.as_slice())
     }
 
+    /// Take the array storage out of the current module's `RuntimeState` (hot swap).
+    fn take_arrays(&mut self) -> std::collections::HashMap<u64, Vec<u64>> {
+        self.current_module
+            .as_mut()
+            .and_then(|m| m.get_runtime_state_mut())
+            .map(|s| s.take_arrays())
+            .unwrap_or_default()
+    }
+
+    /// Add the arrays of the engine that is being replaced to the current module's storage.
+    fn adopt_arrays(&mut self, arrays: std::collections::HashMap<u64, Vec<u64>>) {
+        if let Some(state) = self
+            .current_module
+            .as_mut()
+            .and_then(|m| m.get_runtime_state_mut())
+        {
+            state.adopt_arrays(arrays);
+        }
+    }
+
     /// Overwrite the global state data in the current module's `RuntimeState`.
     ///
     /// Also resets the state position cursor to zero so the next `dsp` call
@@ -346,8 +366,12 @@ impl DspRuntime for WasmDspRuntime {
             // Snapshot the old global state before loading the new module.
             let old_global_data: Option<Vec<u64>> =
                 self.engine.get_global_state_data().map(|d| d.to_vec());
+            // The state cells carried over may hold array handles (an array-valued `self`):
+            // the arrays move to the new engine as well (the VM clones its array storage).
+            let old_arrays = self.engine.take_arrays();
 
             let old_engine = std::mem::replace(&mut self.engine, *prepared_engine);
+            self.engine.adopt_arrays(old_arrays);
 
             if let Some(sender) = &self.retired_engine_sender {
                 if let Err(err) = sender.send(old_engine) {
